@@ -140,7 +140,7 @@ theorem invDown_step {c σ a σ'} (h : step c σ a = some σ') (hy : OpenOK σ a
     all_goals (simp_all [State.down])
 
 set_option maxHeartbeats 4000000 in
-theorem invS2_step {c σ a σ'} (h : step c σ a = some σ') (hy : OrderOK σ a) (B : InvBound σ) (I : InvS2 σ) : InvS2 σ' := by
+theorem invS2_step_s {c σ a σ'} (ha : a.grp = .s) (h : step c σ a = some σ') (hy : OrderOK σ a) (B : InvBound σ) (I : InvS2 σ) : InvS2 σ' := by
   cases a with
   | «open» sh srv =>
     step_inv h
@@ -207,23 +207,67 @@ theorem invS2_step {c σ a σ'} (h : step c σ a = some σ') (hy : OrderOK σ a)
       · subst e2; simp at this; exact absurd hs this
       · simp [e2] at this; exact this hs
   | _ =>
-    step_inv h
-    all_goals (intro i h1 h2 hn)
-    all_goals (try simp at h1 h2 hn ⊢)
-    all_goals (first
-      | exact I i h1 h2 hn
-      | (have hI := I i
-         have key : ∀ j, i < j → j < σ.next → (σ.inc j).shard = (σ.inc i).shard → (σ.inc j).spc = .start := by
-           intro j hij hj hs
-           have := hn j hij hj
-           revert this; crush
-         revert h1 h2; crush))
+    first
+    | (exact Grp.noConfusion ha)
+    | (step_inv h
+       all_goals (intro i h1 h2 hn)
+       all_goals (try simp at h1 h2 hn ⊢)
+       all_goals (first
+         | exact I i h1 h2 hn
+         | (have hI := I i
+            have key : ∀ j, i < j → j < σ.next → (σ.inc j).shard = (σ.inc i).shard → (σ.inc j).spc = .start := by
+              intro j hij hj hs
+              have := hn j hij hj
+              revert this; crush
+            revert h1 h2; crush)))
+
+set_option maxHeartbeats 4000000 in
+theorem invS2_step_r {c σ a σ'} (ha : a.grp = .r) (h : step c σ a = some σ') (hy : OrderOK σ a) (B : InvBound σ) (I : InvS2 σ) : InvS2 σ' := by
+  cases a with
+  | _ =>
+    first
+    | (exact Grp.noConfusion ha)
+    | (step_inv h
+       all_goals (intro i h1 h2 hn)
+       all_goals (try simp at h1 h2 hn ⊢)
+       all_goals (first
+         | exact I i h1 h2 hn
+         | (have hI := I i
+            have key : ∀ j, i < j → j < σ.next → (σ.inc j).shard = (σ.inc i).shard → (σ.inc j).spc = .start := by
+              intro j hij hj hs
+              have := hn j hij hj
+              revert this; crush
+            revert h1 h2; crush)))
+
+set_option maxHeartbeats 4000000 in
+theorem invS2_step_e {c σ a σ'} (ha : a.grp = .e) (h : step c σ a = some σ') (hy : OrderOK σ a) (B : InvBound σ) (I : InvS2 σ) : InvS2 σ' := by
+  cases a with
+  | _ =>
+    first
+    | (exact Grp.noConfusion ha)
+    | (step_inv h
+       all_goals (intro i h1 h2 hn)
+       all_goals (try simp at h1 h2 hn ⊢)
+       all_goals (first
+         | exact I i h1 h2 hn
+         | (have hI := I i
+            have key : ∀ j, i < j → j < σ.next → (σ.inc j).shard = (σ.inc i).shard → (σ.inc j).spc = .start := by
+              intro j hij hj hs
+              have := hn j hij hj
+              revert this; crush
+            revert h1 h2; crush)))
+
+theorem invS2_step {c σ a σ'} (h : step c σ a = some σ') (hy : OrderOK σ a) (B : InvBound σ) (I : InvS2 σ) : InvS2 σ' := by
+  cases ha : a.grp
+  · exact invS2_step_s ha h hy B I
+  · exact invS2_step_r ha h hy B I
+  · exact invS2_step_e ha h hy B I
 
 theorem stamped_of_holdsLocal {p : SPc} (h : p.holdsLocal = true) : p.stamped = true := by
   cases p <;> simp_all
 
 set_option maxHeartbeats 4000000 in
-theorem invL2_step {c σ a σ'} (h : step c σ a = some σ') (hc2 : c.secondDelete = false) (hy : OrderOK σ a) (B : InvBound σ) (T : InvStamp σ)
+theorem invL2_step_s {c σ a σ'} (ha : a.grp = .s) (h : step c σ a = some σ') (hc2 : c.secondDelete = false) (hy : OrderOK σ a) (B : InvBound σ) (T : InvStamp σ)
     (I : InvL2 σ) : InvL2 σ' := by
   cases a with
   | «open» sh srv =>
@@ -331,17 +375,64 @@ theorem invL2_step {c σ a σ'} (h : step c σ a = some σ') (hc2 : c.secondDele
       · subst e2; simp at this; exact absurd hs (by intro hs'; simp [hs'] at this)
       · simp [e2] at this; exact this hs
   | _ =>
-    step_inv h
-    all_goals (intro i h1 hn)
-    all_goals (try simp at h1 hn ⊢)
-    all_goals (first
-      | exact I i h1 hn
-      | (have hI := I i
-         have key : ∀ j, i < j → j < σ.next → (σ.inc j).shard = (σ.inc i).shard → (σ.inc j).spc = .start ∨ (σ.inc j).spc = .set := by
-           intro j hij hj hs
-           have := hn j hij hj
-           revert this; crush
-         revert h1; crush))
+    first
+    | (exact Grp.noConfusion ha)
+    | (step_inv h
+       all_goals (intro i h1 hn)
+       all_goals (try simp at h1 hn ⊢)
+       all_goals (first
+         | exact I i h1 hn
+         | (have hI := I i
+            have key : ∀ j, i < j → j < σ.next → (σ.inc j).shard = (σ.inc i).shard → (σ.inc j).spc = .start ∨ (σ.inc j).spc = .set := by
+              intro j hij hj hs
+              have := hn j hij hj
+              revert this; crush
+            revert h1; crush)))
+
+set_option maxHeartbeats 4000000 in
+theorem invL2_step_r {c σ a σ'} (ha : a.grp = .r) (h : step c σ a = some σ') (hc2 : c.secondDelete = false) (hy : OrderOK σ a) (B : InvBound σ) (T : InvStamp σ)
+    (I : InvL2 σ) : InvL2 σ' := by
+  cases a with
+  | _ =>
+    first
+    | (exact Grp.noConfusion ha)
+    | (step_inv h
+       all_goals (intro i h1 hn)
+       all_goals (try simp at h1 hn ⊢)
+       all_goals (first
+         | exact I i h1 hn
+         | (have hI := I i
+            have key : ∀ j, i < j → j < σ.next → (σ.inc j).shard = (σ.inc i).shard → (σ.inc j).spc = .start ∨ (σ.inc j).spc = .set := by
+              intro j hij hj hs
+              have := hn j hij hj
+              revert this; crush
+            revert h1; crush)))
+
+set_option maxHeartbeats 4000000 in
+theorem invL2_step_e {c σ a σ'} (ha : a.grp = .e) (h : step c σ a = some σ') (hc2 : c.secondDelete = false) (hy : OrderOK σ a) (B : InvBound σ) (T : InvStamp σ)
+    (I : InvL2 σ) : InvL2 σ' := by
+  cases a with
+  | _ =>
+    first
+    | (exact Grp.noConfusion ha)
+    | (step_inv h
+       all_goals (intro i h1 hn)
+       all_goals (try simp at h1 hn ⊢)
+       all_goals (first
+         | exact I i h1 hn
+         | (have hI := I i
+            have key : ∀ j, i < j → j < σ.next → (σ.inc j).shard = (σ.inc i).shard → (σ.inc j).spc = .start ∨ (σ.inc j).spc = .set := by
+              intro j hij hj hs
+              have := hn j hij hj
+              revert this; crush
+            revert h1; crush)))
+
+theorem invL2_step {c σ a σ'} (h : step c σ a = some σ') (hc2 : c.secondDelete = false) (hy : OrderOK σ a) (B : InvBound σ) (T : InvStamp σ)
+    (I : InvL2 σ) : InvL2 σ' := by
+  cases ha : a.grp
+  · exact invL2_step_s ha h hc2 hy B T I
+  · exact invL2_step_r ha h hc2 hy B T I
+  · exact invL2_step_e ha h hc2 hy B T I
 
 set_option maxHeartbeats 4000000 in
 theorem invSup_step {c σ a σ'} (h : step c σ a = some σ') (hr : RecvOK σ a) (ho : OrderOK σ a) (B : InvBound σ) (C : InvC σ)
